@@ -146,6 +146,26 @@ def _overlaps_beyond_margin(x0: int, x1: int, lx: int, y0: int, y1: int, ly: int
     return bool(lenient and shared > 0 and nested(x0, x1, y0, y1))
 
 
+def r_justified(cand: dict[str, Any], out: list[list], lens: dict[str, int]) -> bool:
+    """ may the hit / merge `cand` be absent from `out` according to the statement: a kept hit that
+        scores at least as well overlaps it beyond the margin, or it is an incomplete fragment and a
+        kept hit is at least as complete (or it is at most a third of its profile) """
+    length = lens[cand["p"]]
+    for k in out:
+        if k[4] >= cand["s"] and _overlaps_beyond_margin(k[1], k[2], lens[k[0]], cand["a"], cand["b"],
+                                                           length, lenient=True):
+            return True
+    size = cand["b"] - cand["a"]
+    if 2 * size <= length:  # incomplete
+        if 3 * size <= length:  # below the fallback: may vanish without alternative
+            return True
+        prop = Fraction(size, length)
+        for k in out:
+            if Fraction(k[2] - k[1], lens[k[0]]) >= prop:
+                return True
+    return False
+
+
 def refine_oracle(hits: list[list], lens: dict[str, int], out: Any) -> dict[str, str]:
     """ Evaluates the per-result clauses of the statement on one observed output.
         Returns {clause: detail} for the clauses that FAIL ("" values never appear). """
@@ -187,20 +207,7 @@ def refine_oracle(hits: list[list], lens: dict[str, int], out: Any) -> dict[str,
     # a hit is dropped only if a better-ranked overlapping hit is kept, or it is an incomplete
     # fragment with a more complete alternative
     def justified(cand: dict[str, Any]) -> bool:
-        length = lens[cand["p"]]
-        for k in out:
-            if k[4] >= cand["s"] and _overlaps_beyond_margin(k[1], k[2], lens[k[0]], cand["a"], cand["b"],
-                                                               length, lenient=True):
-                return True
-        size = cand["b"] - cand["a"]
-        if 2 * size <= length:  # incomplete
-            if 3 * size <= length:  # below the fallback: may vanish without alternative
-                return True
-            prop = Fraction(size, length)
-            for k in out:
-                if Fraction(k[2] - k[1], lens[k[0]]) >= prop:
-                    return True
-        return False
+        return r_justified(cand, out, lens)
 
     for i, hit in enumerate(hits):
         if i in represented:
@@ -476,33 +483,32 @@ def f_tied_best_in_profile(hits: list[list]) -> bool:
 # C13.FINDING_CLASSES; each is a predicate over the input, the clause and, where stored,
 # the observed output)
 
-def r_explain_unjustified(hits: list[list], lens: dict[str, int], mode: int, i: int) -> set[str]:
-    """ which known mechanisms can explain that input hit i vanished without justification """
-    reasons: set[str] = set()
-    x = hits[i]
-    same = [h for j, h in enumerate(hits) if j != i and h[0] == x[0]]
-    if not mode:
-        # _merge_domain_list restarts its chain at a same-profile hit too far away to merge and
-        # forgets the chain built so far
-        span = 3 * lens[x[0]]
-        starts = [h[1] for h in same if h[1] <= x[1]] + [x[1]]
-        for y in same:
-            if y[1] >= x[1] and any(2 * (y[2] - z) >= span for z in starts):
-                reasons.add("far")
-    if r_shrinkable_pair([x] + same):
-        # HMMResult.merge cut a merged span of this profile back to a nested fragment's end
-        reasons.add("shrunk")
-    cands = _merge_candidates(hits, lens)
-    for mine in cands:
-        if not mine["valid"] or i not in mine["members"]:
-            continue
-        for other in cands:
-            if not other["valid"] or i in other["members"] or other["s"] < mine["s"]:
+def r_lost_to_vanished_competitor(hits: list[list], lens: dict[str, int], out: list[list], i: int) -> bool:
+    """ What the single greedy pass + later completeness filter did to input hit i, read off the input and
+        the observed output: hit i (or a valid merge containing it) has a competitor among the inputs / their
+        valid merges that scores at least as well and overlaps it beyond the margin, and that competitor is
+        itself absent from the output for an accountable reason - its absence is justified by the output
+        (a kept better overlapping hit, or it is an incomplete fragment), or it in turn lost to such a
+        competitor.  So i lost a comparison, and the winner was replaced / filtered afterwards. """
+    cands = [c for c in _merge_candidates(hits, lens) if c["valid"]]
+    kept = {(o[0], o[1], o[2], o[3], o[4]) for o in out}
+
+    def absent(cand: dict[str, Any]) -> bool:
+        return (cand["p"], cand["a"], cand["b"], cand["e"], cand["s"]) not in kept
+
+    def beaten_by_vanished(mine: dict[str, Any], seen: frozenset) -> bool:
+        for n, other in enumerate(cands):
+            if n in seen or other["members"] & mine["members"] or other["s"] < mine["s"] or not absent(other):
                 continue
-            if _overlaps_beyond_margin(other["a"], other["b"], lens[other["p"]], mine["a"], mine["b"],
-                                       lens[mine["p"]], lenient=True):
-                reasons.add("transitive")
-    return reasons
+            if not _overlaps_beyond_margin(other["a"], other["b"], lens[other["p"]], mine["a"], mine["b"],
+                                           lens[mine["p"]], lenient=True):
+                continue
+            if r_justified(other, out, lens) or beaten_by_vanished(other, seen | {n}):
+                return True
+        return False
+
+    return any(i in mine["members"] and beaten_by_vanished(mine, frozenset({n}))
+               for n, mine in enumerate(cands))
 
 
 def r_pair_with_hit_between(hits: list[list], lens: dict[str, int], out: list[list]) -> bool:
